@@ -24,6 +24,7 @@ var c19Funcs = []c19Fn{
 	{"crypto/dpop/dpop.go", "", "strip"},
 	{"vdr/resolver/key.go", "DIDKeyResolver", "ResolveKeyByID"},
 	{"vdr/resolver/key.go", "DIDKeyResolver", "baseUrl"},
+	{"vdr/resolver/key.go", "DIDKeyResolver", "ResolveKey"},
 	{"vdr/resolver/service.go", "DIDServiceResolver", "Resolve"},
 	{"vdr/resolver/service.go", "DIDServiceResolver", "ResolveEx"},
 	{"vcr/revocation/bitstring.go", "bitstring", "bit"},
@@ -230,6 +231,15 @@ func c19Ops(fd *ast.FuncDecl) []string {
 			}
 		case *ast.IfStmt:
 			stmt(x.Init)
+			// nil guards (other than the ubiquitous `err`): the models rely on some of them
+			ast.Inspect(x.Cond, func(n ast.Node) bool {
+				if b, ok := n.(*ast.BinaryExpr); ok && (b.Op == token.EQL || b.Op == token.NEQ) {
+					if id, ok := b.Y.(*ast.Ident); ok && id.Name == "nil" && c19Expr(b.X) != "err" {
+						add("nilcheck", c19Expr(b))
+					}
+				}
+				return true
+			})
 			expr(x.Cond, false)
 			stmt(x.Body)
 			stmt(x.Else)
@@ -428,6 +438,21 @@ func extractC19() *lean {
 		}
 		l.def(c, "Nat", v, v)
 	}
+	// bucketIndices caps k at the number of buckets (`if uint32(k) > numBuckets { k = int(numBuckets) }`)
+	caps := false
+	for _, d := range iblt.Decls {
+		if fd, ok := d.(*ast.FuncDecl); ok && fd.Name.Name == "bucketIndices" && fd.Body != nil {
+			ast.Inspect(fd.Body, func(n ast.Node) bool {
+				if is, ok := n.(*ast.IfStmt); ok && c19Expr(is.Cond) == "uint32(k) > numBuckets" && len(is.Body.List) == 1 {
+					if as, ok := is.Body.List[0].(*ast.AssignStmt); ok && len(as.Lhs) == 1 && c19Expr(as.Lhs[0]) == "k" && c19Expr(as.Rhs[0]) == "int(numBuckets)" {
+						caps = true
+					}
+				}
+				return true
+			})
+		}
+	}
+	l.def("bucketIndicesCapsK", "Bool", map[bool]string{true: "true", false: "false"}[caps], caps)
 	dp := get("crypto/dpop/dpop.go")
 	v := c19ConstNat(dp, "maxJtiLength")
 	l.def("maxJtiLength", "Nat", v, v)
